@@ -368,6 +368,28 @@ where
 // contracts to not outlive the `Identifier` it references.
 unsafe impl<R> Send for IdentifierRef<R> where R: Registry {}
 
+/// Read-only access to the private representation, for verification harnesses only.
+#[cfg(brood_verif)]
+impl<R> Identifier<R>
+where
+    R: Registry,
+{
+    pub(crate) fn verif_raw(&self) -> (*mut u8, usize) {
+        (self.pointer, self.capacity)
+    }
+}
+
+/// Read-only access to the private representation, for verification harnesses only.
+#[cfg(brood_verif)]
+impl<R> IdentifierRef<R>
+where
+    R: Registry,
+{
+    pub(crate) fn verif_pointer(self) -> *const u8 {
+        self.pointer
+    }
+}
+
 #[cfg(test)]
 mod tests {
     use crate::{
